@@ -2,6 +2,7 @@
 from engines import immsim
 PROPERTY = "C04"
 ENGINE = "gridsim/imm"
+SPIN_IS_VIOLATION = True   # the property promises an outcome: an operation that never returns to the reactor violates it
 LEVEL = "exploration"
 COUNTS = {"quick": 1200, "thorough": 30000}
 CHUNK = 40
